@@ -64,18 +64,21 @@ fn run_prologue(use_mbuff: bool, update_data_ptr: bool) {
             assert!(st.r[X_MEM_BASE] == e[x86s::RDX], "ensures: the packet base register holds mem");
         }
         1 => {
-            // r10 = top of a private 512-byte stack: rbp = rsp after the 5 pushes, then rsp -= 512
-            assert!(r[10] == e[x86s::RSP].wrapping_sub(40) && st.r[x86s::RSP] == e[x86s::RSP].wrapping_sub(40 + 512), "ensures: r10 is the top of 512 bytes reserved below it");
+            // r10 = top of a private stack of at least 512 bytes: rbp = rsp after the 5 pushes, then rsp is lowered
+            let reserved = r[10].wrapping_sub(st.r[x86s::RSP]);
+            assert!(r[10] == e[x86s::RSP].wrapping_sub(40) && reserved >= 512 && reserved <= 4096, "ensures: r10 is the top of (at least) 512 bytes reserved below it");
             assert!(st.sp_words == 5 && st.stack[0] == e[x86s::RBP] && st.stack[1] == e[x86s::RBX] && st.stack[2] == e[13] && st.stack[3] == e[14] && st.stack[4] == e[15],
                     "ensures: callee-saved registers pushed in the order the epilogue pops them");
         }
         2 => {
             if use_mbuff && update_data_ptr {
-                // fixed-metadata VM: two 8-byte stores  [mbuff + off] = mem ; [mbuff + end_off] = mem + mem_len
-                // (this model keeps the last access; the first is checked by the store count and the value of r8)
-                assert!(st.naccess == 3, "ensures: store mem, reload it, store mem_end");
-                assert!(st.access == XAccess::Store { addr: e[x86s::RDI].wrapping_add(e[9]), width: 8, val: st.load_data.wrapping_add(e[x86s::RCX]) },
-                        "ensures: data_end pointer stored at mbuff + data_end_offset");
+                // fixed-metadata VM (C09): exactly two 8-byte stores
+                //   [mbuff + data_offset] = address of the first packet byte ; [mbuff + data_end_offset] = address one past the last
+                assert!(st.naccess == 2, "ensures: exactly two stores into the metadata buffer, no load");
+                assert!(st.prev_access == XAccess::Store { addr: e[x86s::RDI].wrapping_add(e[8]), width: 8, val: e[x86s::RDX] },
+                        "ensures: packet address stored at mbuff + data_offset");
+                assert!(st.access == XAccess::Store { addr: e[x86s::RDI].wrapping_add(e[9]), width: 8, val: e[x86s::RDX].wrapping_add(e[x86s::RCX]) },
+                        "ensures: address one past the last packet byte stored at mbuff + data_end_offset");
             } else {
                 assert!(st.naccess == 0, "ensures: no store into the metadata buffer unless the VM owns it");
             }
@@ -98,28 +101,66 @@ fn prologue_mbuff() { run_prologue(true, false); }
 fn prologue_fixed_mbuff() { run_prologue(true, true); }
 
 // ------------------------------------------------------------------ epilogue
+// runs after the last `ret` of the body has popped the landing pad: undoes the prologue exactly
 #[kani::proof]
-#[kani::unwind(24)]
+#[kani::unwind(15)]
 fn epilogue_contract() {
+    // prologue first, to learn what it reserved
     let mut buf = [0u8; 64];
     let mut mem = mk_mem(&mut buf, true);
     let mut jit = JitCompiler::new();
-    jit.epilogue(&mut mem);
-    let emitted = mem.offset;
-    assert!(jit.special_targets.inserted == Some((TARGET_PC_EXIT, 0)), "ensures: the exit anchor is the start of the epilogue");
+    jit.prologue(&mut mem, 16, kani::any(), false);
+    let plen = mem.offset;
     let mut st = any_xstate();
     let e = st.r;
-    // machine stack as the prologue left it: rbp, rbx, r13, r14, r15 pushed
-    st.sp_words = 5;
-    let saved: [u64; 5] = kani::any();
-    st.stack[0] = saved[0]; st.stack[1] = saved[1]; st.stack[2] = saved[2]; st.stack[3] = saved[3]; st.stack[4] = saved[4];
-    let (end, ip) = run(&mut st, &buf, 0, emitted, 20);
-    assert!(end == XEnd::Ret && ip == emitted, "ensures: epilogue ends with ret");
-    assert!(st.r[x86s::RAX] == e[x86s::RAX], "ensures: the return value is r0 (rax)");
-    assert!(st.r[x86s::RBP] == saved[0] && st.r[x86s::RBX] == saved[1] && st.r[13] == saved[2] && st.r[14] == saved[3] && st.r[15] == saved[4] && st.sp_words == 0,
-            "ensures: callee-saved registers restored in reverse order");
-    assert!(st.r[x86s::RSP] == e[x86s::RSP].wrapping_add(512 + 40), "ensures: the 512-byte stack and the 5 saved registers are released");
+    let (end, _ip) = run(&mut st, &buf, 0, plen, 12);
+    kani::assume(matches!(end, XEnd::CallAt(_)));
+    // the body may change every eBPF register except r10's carrier being restored by the epilogue anyway
+    let r0: u64 = kani::any();
+    st.r[x86s::RAX] = r0;
+    st.r[3] = kani::any(); st.r[13] = kani::any(); st.r[14] = kani::any(); st.r[15] = kani::any(); st.r[5] = kani::any();
+    st.naccess = 0;
+    st.access = XAccess::None;
+    let mut buf2 = [0u8; 64];
+    let mut mem2 = mk_mem(&mut buf2, true);
+    let mut jit2 = JitCompiler::new();
+    jit2.epilogue(&mut mem2);
+    let elen = mem2.offset;
+    assert!(jit2.special_targets.inserted == Some((TARGET_PC_EXIT, 0)), "ensures: the exit anchor is the start of the epilogue");
+    let (end2, ip2) = run(&mut st, &buf2, 0, elen, 10);
+    assert!(end2 == XEnd::Ret && ip2 == elen, "ensures: epilogue ends with ret");
+    assert!(st.r[x86s::RAX] == r0, "ensures: the return value is r0 (rax)");
+    assert!(st.r[x86s::RBP] == e[x86s::RBP] && st.r[x86s::RBX] == e[x86s::RBX] && st.r[13] == e[13] && st.r[14] == e[14] && st.r[15] == e[15] && st.sp_words == 0,
+            "ensures: callee-saved registers of the caller restored");
+    assert!(st.r[x86s::RSP] == e[x86s::RSP], "ensures: rsp is back where the caller left it (everything the prologue reserved is released)");
     assert!(st.naccess == 0, "ensures: no data access");
+}
+
+// C07 (JIT part): inside the callee r10 must be lower than the caller's by the caller's frame size.
+// The JIT does not adjust the frame pointer: KNOWN FINDING jit-local-call-r10 (this harness is expected to fail).
+#[kani::proof]
+#[kani::unwind(16)]
+fn kf_jit_local_call_r10() {
+    let insn = ebpf::Insn { opc: OP_CALL, dst: 0, src: 1, off: 0, imm: kani::any() };
+    let n: usize = kani::any();
+    let pc: usize = kani::any();
+    let si = SInsn { opc: insn.opc, dst: 0, src: 1, off: 0, imm: insn.imm };
+    kani::assume(wf_facts(&si, pc, n));
+    let helpers: HashMap<u32, ebpf::Helper> = HashMap::with(None);
+    let mut buf = [0u8; 64];
+    let mut mem = mk_mem(&mut buf, true);
+    let mut jit = JitCompiler::new();
+    jit.pc_locs = crate::vec![0; n + 1];
+    let mut env = Env { insns: [insn.clone(), insn.clone()], nfetch: 0, fetch_idx: [0, 0], n_insns: n };
+    let r = jit.arm(&mut mem, &mut env, &helpers, pc);
+    kani::assume(r.is_ok());
+    let emitted = mem.offset;
+    let mut st = any_xstate();
+    let before = ebpf_regs(&st);
+    let (end, _ip) = run(&mut st, &buf, 0, emitted, 12);
+    kani::assume(matches!(end, XEnd::CallAt(_)));
+    let at_entry = ebpf_regs(&st);
+    assert!(at_entry[10] == before[10].wrapping_sub(S_DEFAULT_FRAME as u64), "ensures: r10 in the callee is lower than the caller's by the caller's frame size");
 }
 
 // ------------------------------------------------------------------ map_register (C12)
